@@ -26,6 +26,12 @@ TEMPLATES = [
     (("a",), ("b",), ("c",), ("d",), ("b", "c", "d"), ("a", "d")),
     (("a", "i"), ("b",), ("c", "i", "j"), ("d", "j"), ("a", "b", "c", "i")),
     (("c",), ("a",), ("b", "i"), ("a", "b", "c", "i"), ("a", "i")),
+    # sibling plates nested in a third one: a variable whose ordinal ({i}) is the plate set of no factor, next to a
+    # shallower factor sharing another variable with the deep ones
+    (("a", "b", "i", "j"), ("a", "i", "k"), ("b",)),
+    (("a", "b", "i", "j"), ("a", "i", "k"), ("b", "i")),
+    (("a", "i", "j"), ("a", "b", "i", "k"), ("b", "c"), ("c",)),
+    (("a", "c", "i", "j"), ("a", "b", "i", "k"), ("b", "c"), ("c", "i")),
 ]
 
 
@@ -197,6 +203,39 @@ class C09(Prop):
 
     def strategy(self, tier):
         return case_strategy(tier)
+
+    def extra(self, tier, shard, nshards, stt, seed):
+        """Small-scope enumeration: every structural template x every algorithm x three semirings, everything eliminated,
+        sizes 2 (and one assignment of mixed sizes drawn from the seed)."""
+        k = 0
+        sems = ["add_mul", "logaddexp_add", "max_add"] if tier == "quick" else list(SEMIRINGS)
+        for ti, tpl in enumerate(TEMPLATES):
+            names = sorted({n for f in tpl for n in f})
+            for algo in ALGOS:
+                for sem in sems:
+                    for variant in range(2):
+                        k += 1
+                        if k % nshards != shard:
+                            continue
+                        if algo in ("einsum", "naive_einsum") and sem not in EINSUM_BACKEND:
+                            continue
+                        if variant == 0:
+                            sizes = {n: 2 for n in names}
+                        else:
+                            sizes = {n: 1 + (seed * 7 + ti * 5 + 3 * j + ord(n)) % 3 for j, n in enumerate(names)}
+                        case = dict(sem=sem, sizes=sizes, plates=[n for n in names if n in PLATES], factors=[list(f) for f in tpl], elim=list(names),
+                                    scales={}, algo=algo, split=[n for j, n in enumerate(names) if (j + ti + variant) % 2], real=False, pedantic=False,
+                                    a=(seed * 131 + ti * 17 + variant) % 9973, b=1 + (seed + ti) % 96)
+                        stt.evaluations += 1
+                        try:
+                            self.check(case, stt)
+                        except Decline as d:
+                            stt.decline(d.bucket)
+                        except Violation as v:
+                            sig = v.bucket + "|template|" + self.signature(case)
+                            if not any(x["bucket"] == sig for x in stt.violations) and len(stt.violations) < 6:
+                                stt.violations.append(dict(bucket=sig, message=v.message, case=case))
+        stt.notes["templates_enumerated"] = len(TEMPLATES)
 
     def describe(self, case):
         return str({k: v for k, v in case.items() if k not in ("a", "b")})
